@@ -1,19 +1,21 @@
 """C13 -- fusing jointless bodies on load preserves the model's geometry.
 
-R13.1 guard completeness: the call composing the removed body's pose into a child may be
-      skipped only when *every* pose argument is the identity (guard mentions all pose
-      arguments disjunctively with the right identity constants, or none).
-R13.2 _offset writes both pos and quat from _transform_do(parent_pos, parent_quat, pos, quat)
-      and transforms both fromto end points with the same parent pose;
-      _transform_do == Transform o Transform (AVN law).
-R13.3 offset tags include body/geom/site; only jointless bodies are fused; every grandchild is
-      re-parented, the fused body removed, nested levels recursed; fusion runs before
-      serialisation / MjModel compilation on every load path.
+R13.4 [RI, abstract execution] mjcf._fuse_bodies is abstractly executed on mock MJCF body trees (braxlint/xmlmock.py: the
+      ElementTree API subset the loader uses; numeric attributes are avn.NumStr values that carry the numbers they spell
+      through '%f' % x, ' '.join, .split and np.fromstring) with symbolic poses: jointless bodies under the world, under
+      a jointed body and nested, each with pos only / quat only / both / neither, holding geoms given by pos+quat, pos or
+      fromto, a site and a jointed child body.  Afterwards every geom / site / jointed body hangs directly under its
+      nearest jointed ancestor (or the world) with exactly the pose MuJoCo gives it in the original document (from-to
+      geoms: both end points), and no jointless body is left.  Unit quaternions by construction: must hold; general
+      (non-unit) quaternions: one separate obligation (known finding D8).
+R13.2 [RI, law] mjcf._transform_do composes rigid transforms (unit parent quaternion).
+R13.3 [paths] every load path (loads, load_mjmodel, fuse_bodies, nested XML assets) fuses before it serialises / compiles.
+The older source-shape rules (guard completeness, write-back paths, tag list) are kept as localisation hints only.
 """
 import ast
 
 from braxlint import avn, paths, pred
-from braxlint.avn import fn, same
+from braxlint.avn import asarr, fn, same
 from braxlint.avnlib import B, T, diff_report, new_interp
 from braxlint.universe import AnalysisError, call_name, dotted, own_nodes
 
@@ -204,15 +206,37 @@ def r13_2(U, rep):
         pcs = stores[key][1]
         rep.check(any('fromto' in x for x in pcs), 'R13.2', 'pos/quat not written on fromto elements (%s)' % key,
                   'pos/quat are also written on fromto elements (MuJoCo rejects fromto with pos/quat)', where=f.where(stores[key][2]))
-  # AVN: _transform_do == Transform.do(Transform)
-  I = new_interp(U.repo, contracts=False)
-  a, b = T('a'), T('b')
-  got = list(I.apply(fn(MJ, '_transform_do'), [a.f['pos'], a.f['rot'], b.f['pos'], b.f['rot']], {}))
-  comp = I.apply(fn(B, 'Transform.do'), [a, b], {})
-  want = [comp.f['pos'], comp.f['rot']]
-  rep.check(same(got, want), 'R13.2', '_transform_do == Transform o Transform',
-            'mjcf._transform_do is not rigid-transform composition: ' + diff_report(got, want),
+  # law: mjcf._transform_do composes rigid transforms under MuJoCo's reading of a quat attribute (normalised)
+  ok, why = transform_do_law(U)
+  rep.check(ok, 'R13.2', '_transform_do == Transform o Transform',
+            'mjcf._transform_do is not rigid-transform composition: ' + why,
             where=U.func(MJ + '._transform_do').where())
+
+
+def transform_do_law(U):
+  """mjcf._transform_do(pp, pq, p, q) == (pp + R(pq) p,  a multiple of pq (x) q)  for a UNIT parent quaternion pq (by
+  construction) and a general q -- whether or not the implementation normalises pq first.  (What happens for a
+  non-unit `quat` attribute is the separate obligation R13.4 / known finding D8.)"""
+  from braxlint import avn, refkin
+  from braxlint.avn import symarr
+  for t in range(60):
+    avn.field_mode(770 + t)
+    avn.FIELD['sqrt_axiom'] = True
+    try:
+      I = new_interp(U.repo, contracts=False)
+      pp, pq, p, q = symarr('pp', (3,)), refkin.unit_quat('pq'), symarr('cp', (3,)), symarr('cq', (4,))
+      got = list(I.apply(fn(MJ, '_transform_do'), [pp, pq, p, q], {}))
+      wp, wq = _mj_compose([(pp, pq), (p, q)])
+      if not same(got[0], wp):
+        return False, 'the composed position is not parent_pos + R(parent_quat / |parent_quat|) pos'
+      if not _parallel(list(asarr(got[1])), list(wq)):
+        return False, 'the composed orientation is not (a multiple of) parent_quat (x) quat'
+      return True, ''
+    except avn.NonResidue:
+      continue
+    finally:
+      avn.exact_mode()
+  raise AnalysisError('transform_do_law: no random point with all square-root arguments quadratic residues')
 
 
 def r13_3_paths(U, rep):
@@ -235,7 +259,222 @@ def r13_3_paths(U, rep):
               where=f.where(bad) if bad is not None else f.where())
 
 
+class _Hints:
+  """The source-shape rules R13.1 / R13.2 (guard completeness, write-back paths) predate the semantic rule R13.4,
+  which decides the same clauses on values by abstractly executing _fuse_bodies.  They are kept as LOCALISATION HINTS
+  only: a disagreement of a shape rule is recorded as a note, never as a violation (a refactoring may legitimately
+  change the shape of the code)."""
+
+  def __init__(self, rep):
+    self.rep = rep
+
+  def ok(self, *a, **k):
+    pass
+
+  def fail(self, rule, key, message, where=None, **k):
+    self.rep.note('hint %s [%s]: %s' % (rule, key, message() if callable(message) else message))
+
+  def check(self, cond, rule, key, message, where=None, **k):
+    if not cond:
+      self.fail(rule, key, message, where=where)
+
+  def note(self, m):
+    self.rep.note(m)
+
+  def stat(self, k, v):
+    self.rep.stat(k, v)
+
+
 def run(U, rep, tier):
-  r13_1_3(U, rep)
-  r13_2(U, rep)
+  geometry_preserved(U, rep, tier)
+  ok, why = transform_do_law(U)
+  rep.check(ok, 'R13.2', '_transform_do == Transform o Transform (unit parent quaternion)',
+            'mjcf._transform_do is not rigid-transform composition: ' + why, where=U.func(MJ + '._transform_do').where())
   r13_3_paths(U, rep)
+  hints = _Hints(rep)
+  try:
+    r13_1_3(U, hints)
+    r13_2(U, hints)
+  except AnalysisError as e:
+    rep.note('shape hints unavailable: %s' % e)
+
+
+# ------------------------------------------------------------------------------------------------ R13.4
+def _doc(variant, unit=True):
+  """A mock MJCF body tree.  Every numeric attribute is symbolic; quaternions are unit by construction (unit=True) or
+  GENERAL (MuJoCo normalises a `quat` attribute, so a legal document may spell any non-zero quaternion)."""
+  from braxlint import refkin
+  from braxlint.avn import NumStr, symarr
+  from braxlint.xmlmock import Elem
+  cnt = [0]
+
+  def num(n, tag):
+    cnt[0] += 1
+    return NumStr(list(symarr('%s%d_' % (tag, cnt[0]), (n,))))
+
+  def pose(kind):
+    a = {}
+    if kind in ('pos', 'both'):
+      a['pos'] = num(3, 'p')
+    if kind in ('quat', 'both'):
+      cnt[0] += 1
+      a['quat'] = NumStr(list(refkin.unit_quat('uq%d_' % cnt[0]))) if unit else num(4, 'q')
+    return a
+
+  def leaves(prefix):
+    return [Elem('geom', dict(pose('both'), size=NumStr([1])), name=prefix + 'g_posquat'),
+            Elem('geom', dict(pose('pos')), name=prefix + 'g_pos'),
+            Elem('geom', {'fromto': num(6, 'ft')}, name=prefix + 'g_fromto'),
+            Elem('site', pose('quat'), name=prefix + 's_quat'),
+            Elem('body', pose('both'), [Elem('joint', {}), Elem('geom', pose('pos'), name=prefix + 'cg')], name=prefix + 'jointed')]
+
+  k1, k2 = variant
+  inner = Elem('body', pose(k2), leaves('in_'), name='J2')
+  outer = Elem('body', pose(k1), leaves('out_') + [inner], name='J1')
+  anchor = Elem('body', pose('both'), [Elem('joint', {}), Elem('geom', pose('pos'), name='anchor_geom'), outer], name='B')
+  top = Elem('body', pose(k1), leaves('top_'), name='J0')           # a jointless body directly under the world
+  world = Elem('worldbody', {}, [anchor, top])
+  return Elem('mujoco', {}, [world])
+
+
+def _vals(e, key, default):
+  from braxlint.avn import NumStr, Rat, asarr, exact
+  v = e.attrib.get(key)
+  if v is None:
+    return asarr([Rat.lift(x) for x in default])
+  if isinstance(v, NumStr):
+    return asarr(list(v.vals))
+  return asarr([Rat.lift(exact(float(t))) for t in str(v).split()])
+
+
+def _mj_compose(chain):
+  """MuJoCo semantics of a chain of (pos, quat) frames: every quat is normalised before use.  Returns
+  (pos, quat direction) with R(q/|q|) v = rotate_raw(v, q) / (q.q) -- rational, no square root."""
+  from braxlint import refkin
+  from braxlint.avn import Rat, asarr
+  pos, quat = asarr([Rat.lift(0)] * 3), asarr([Rat.lift(1), Rat.lift(0), Rat.lift(0), Rat.lift(0)])
+  for p, q in chain:
+    n2 = (quat * quat).sum()
+    u = quat[1:]
+    rot = 2 * (u * p).sum() * u + (quat[0] * quat[0] - (u * u).sum()) * p + 2 * quat[0] * refkin.cross(u, p)
+    pos = pos + rot / n2
+    quat = refkin.qmul(quat, q)
+  return pos, quat
+
+
+def _parallel(a, b):
+  from braxlint.avn import Rat
+  return all(Rat.lift(a[i] * b[j] - a[j] * b[i]).is_zero() for i in range(len(a)) for j in range(i + 1, len(a)))
+
+
+def geometry_preserved(U, rep, tier):
+  """R13.4 [RI]: mjcf._fuse_bodies is abstractly executed on mock documents (symbolic poses, general quaternions)
+  and every geom / site / jointed body keeps, relative to its nearest jointed ancestor, exactly the pose MuJoCo gives
+  it in the original document (from-to geoms: both end points); the fused jointless bodies are gone."""
+  from braxlint import avn
+  from braxlint.avn import Rat, asarr, fn
+  from braxlint.avnlib import new_interp
+  f = U.func('brax.io.mjcf._fuse_bodies')
+  kinds = [('both', 'both'), ('quat', 'pos'), ('pos', 'quat'), ('none', 'both')] if tier == 'quick' else [
+      (a, b) for a in ('both', 'pos', 'quat', 'none') for b in ('both', 'pos', 'quat', 'none')]
+  runs = [(v, True) for v in kinds] + [(('both', 'both'), False)]
+  for variant, unit in runs:
+    bad = None
+    for t in range(40):
+      # symbolic attribute values are generic: a spelled-out pos / quat differs from the default it overrides
+      def generic(nm):
+        if nm.kind == 'any':
+          return 1
+        if nm.kind in ('all', 'allclose'):
+          return 0
+        if nm.kind == 'bool' and len(nm.key) > 1 and nm.key[1] == '==':
+          return 0
+        return None
+      avn.field_mode(1300 + t, decide=generic)
+      avn.FIELD['sqrt_axiom'] = True
+      try:
+        I = new_interp(U.repo)
+        root = _doc(variant, unit)
+        # reference world-relative poses BEFORE fusing: {leaf name: (anchor name, chain of frames)}
+        want = {}
+
+        def walk(e, anchor, chain):
+          for c in list(e):
+            if c.tag in ('worldbody',):
+              walk(c, 'world', [])
+            elif c.tag == 'body':
+              fr = (_vals(c, 'pos', (0, 0, 0)), _vals(c, 'quat', (1, 0, 0, 0)))
+              if c.find('joint') is not None or c.find('freejoint') is not None:
+                want[c.attrib['name']] = (anchor, chain + [fr], None)
+                walk(c, c.attrib['name'], [])
+              else:
+                walk(c, anchor, chain + [fr])
+            elif c.tag in ('geom', 'site') and 'name' in c.attrib:
+              if 'fromto' in c.attrib:
+                ft = _vals(c, 'fromto', ())
+                want[c.attrib['name']] = (anchor, chain, (ft[0:3], ft[3:6]))
+              else:
+                want[c.attrib['name']] = (anchor, chain + [(_vals(c, 'pos', (0, 0, 0)), _vals(c, 'quat', (1, 0, 0, 0)))], None)
+        walk(root, 'world', [])
+        I.apply(fn('brax.io.mjcf', '_fuse_bodies'), [root], {})
+        # after fusing: every leaf hangs directly under its anchor with the composed pose
+        got = {}
+
+        def walk2(e, anchor):
+          for c in list(e):
+            if c.tag == 'worldbody':
+              walk2(c, 'world')
+            elif c.tag == 'body':
+              jointed = c.find('joint') is not None or c.find('freejoint') is not None
+              if jointed:
+                got[c.attrib['name']] = (anchor, c)
+                walk2(c, c.attrib['name'])
+              else:
+                got['<jointless %s>' % c.attrib.get('name')] = (anchor, c)
+                walk2(c, anchor)
+            elif c.tag in ('geom', 'site') and 'name' in c.attrib:
+              got[c.attrib['name']] = (anchor, c)
+        walk2(root, 'world')
+        left = [k for k in got if k.startswith('<jointless')]
+        if left:
+          bad = 'jointless bodies remain after fusing: %s' % ', '.join(left)
+          break
+        for name, (anchor, chain, fromto) in sorted(want.items()):
+          if name not in got or got[name][0] != anchor:
+            bad = '`%s` is no longer attached to `%s`' % (name, anchor)
+            break
+          e = got[name][1]
+          if fromto is not None:
+            ft = _vals(e, 'fromto', ())
+            for k_, pt in enumerate(fromto):
+              wp, _ = _mj_compose(chain + [(pt, asarr([Rat.lift(1), Rat.lift(0), Rat.lift(0), Rat.lift(0)]))])
+              if not avn.same(ft[3 * k_:3 * k_ + 3], wp):
+                bad = 'from-to geom `%s`: end point %d moves' % (name, k_)
+            if 'pos' in e.attrib or (bad is None and False):
+              pass
+          else:
+            wp, wq = _mj_compose(chain)
+            gp, gq = _vals(e, 'pos', (0, 0, 0)), _vals(e, 'quat', (1, 0, 0, 0))
+            if not avn.same(gp, wp):
+              bad = '`%s` (%s) moves: its position relative to `%s` changes' % (name, e.tag, anchor)
+            elif not _parallel(gq, wq):
+              bad = '`%s` (%s) turns: its orientation relative to `%s` changes' % (name, e.tag, anchor)
+          if bad:
+            break
+        break
+      except avn.NonResidue:
+        continue
+      finally:
+        avn.exact_mode()
+    else:
+      raise AnalysisError('R13.4: no random point with all square-root arguments quadratic residues')
+    if not unit:
+      rep.check(bad is None, 'R13.4', 'non-unit quat attributes are read as MuJoCo reads them (normalised) when poses are composed',
+                'a `quat` attribute that is not normalised (legal MJCF: MuJoCo normalises it) scales the offsets of the fused '
+                'body\'s children by |q|^2: after mjcf._fuse_bodies %s' % bad, where=f.where(),
+                construct='the same mock documents with GENERAL (non-unit) quaternions')
+      continue
+    rep.check(bad is None, 'R13.4', 'fusing preserves geometry [jointless bodies with %s / nested %s]' % variant,
+              'after mjcf._fuse_bodies %s (poses symbolic, quaternions unit by construction)' % bad,
+              where=f.where(), construct='mock document: jointless bodies under the world, under a jointed body and nested; '
+              'geoms by pos/quat, pos, fromto; a site; a jointed child body')
